@@ -62,6 +62,9 @@ impl MT112 {
         // Parse mandatory field 76
         let field_76 = parser.parse_field::<Field76>("76")?;
 
+        // Verify all content is consumed
+        verify_parser_complete(&parser)?;
+
         Ok(MT112 {
             field_20,
             field_21,
